@@ -22,17 +22,21 @@ func (context *Context) LocateObjectByRef(ref ast.RefType) (ast.Object, bool) {
 }
 
 func (context *Context) ResolveToBuilder(def ast.Type) bool {
+	return context.resolveToBuilder(def, map[ast.RefType]struct{}{})
+}
+
+func (context *Context) resolveToBuilder(def ast.Type, seen map[ast.RefType]struct{}) bool {
 	if def.IsArray() {
-		return context.ResolveToBuilder(def.AsArray().ValueType)
+		return context.resolveToBuilder(def.AsArray().ValueType, seen)
 	}
 
 	if def.IsMap() {
-		return context.ResolveToBuilder(def.AsMap().ValueType)
+		return context.resolveToBuilder(def.AsMap().ValueType, seen)
 	}
 
 	if def.IsDisjunction() {
 		for _, branch := range def.AsDisjunction().Branches {
-			if found := context.ResolveToBuilder(branch); found {
+			if found := context.resolveToBuilder(branch, seen); found {
 				return true
 			}
 		}
@@ -46,7 +50,13 @@ func (context *Context) ResolveToBuilder(def ast.Type) bool {
 
 	resolvedRef := context.ResolveRefs(def)
 	if resolvedRef.IsDisjunction() {
-		return context.ResolveToBuilder(resolvedRef)
+		// a disjunction can refer to itself: `A: A | B`
+		if _, cyclic := seen[def.AsRef()]; cyclic {
+			return false
+		}
+		seen[def.AsRef()] = struct{}{}
+
+		return context.resolveToBuilder(resolvedRef, seen)
 	}
 
 	return len(context.Builders.LocateAllByRef(def.AsRef())) != 0
@@ -95,54 +105,61 @@ func (context *Context) IsMapOfKinds(def ast.Type, kinds ...ast.Kind) bool {
 }
 
 func (context *Context) ResolveToComposableSlot(def ast.Type) (ast.Type, bool) {
+	return context.resolveToComposableSlot(def, map[ast.RefType]struct{}{})
+}
+
+func (context *Context) resolveToComposableSlot(def ast.Type, seen map[ast.RefType]struct{}) (ast.Type, bool) {
 	if def.IsComposableSlot() {
 		return def, true
 	}
 
 	if def.IsArray() {
-		return context.ResolveToComposableSlot(def.AsArray().ValueType)
+		return context.resolveToComposableSlot(def.AsArray().ValueType, seen)
 	}
 
 	if def.IsRef() {
+		// references can be cyclic: `A: B`, `B: A`
+		if _, cyclic := seen[def.AsRef()]; cyclic {
+			return ast.Type{}, false
+		}
+		seen[def.AsRef()] = struct{}{}
+
 		referredObj, found := context.LocateObject(def.AsRef().ReferredPkg, def.AsRef().ReferredType)
 		if !found {
 			return ast.Type{}, false
 		}
 
-		return context.ResolveToComposableSlot(referredObj.Type)
+		return context.resolveToComposableSlot(referredObj.Type, seen)
 	}
 
 	return ast.Type{}, false
 }
 
 func (context *Context) ResolveToStruct(def ast.Type) bool {
-	if def.IsStruct() {
-		return true
-	}
-
-	if !def.IsRef() {
-		return false
-	}
-
-	referredObj, found := context.LocateObject(def.AsRef().ReferredPkg, def.AsRef().ReferredType)
-	if !found {
-		return false
-	}
-
-	return context.ResolveToStruct(referredObj.Type)
+	return context.ResolveRefs(def).IsStruct()
 }
 
+// ResolveRefs follows references until a non-reference type is found.
+// A reference that can not be resolved (unknown object, or cycle of
+// references: `A: B`, `B: A`) is returned as it is.
 func (context *Context) ResolveRefs(def ast.Type) ast.Type {
-	if !def.IsRef() {
-		return def
+	seen := map[ast.RefType]struct{}{}
+
+	for def.IsRef() {
+		if _, cyclic := seen[def.AsRef()]; cyclic {
+			return def
+		}
+		seen[def.AsRef()] = struct{}{}
+
+		referredObj, found := context.LocateObject(def.AsRef().ReferredPkg, def.AsRef().ReferredType)
+		if !found {
+			return def
+		}
+
+		def = referredObj.Type
 	}
 
-	referredObj, found := context.LocateObject(def.AsRef().ReferredPkg, def.AsRef().ReferredType)
-	if !found {
-		return def
-	}
-
-	return context.ResolveRefs(referredObj.Type)
+	return def
 }
 
 func (context *Context) BuildersForType(typeDef ast.Type) ast.Builders {
